@@ -208,3 +208,264 @@ def c18_foreign(rp):
     except Exception as e:  # noqa: BLE001
         return True, f"rating {op} {rp['tag']} raised {type(e).__name__}, not ValueError"
     return (rp.get("clause") != "canary"), f"rating {op} {rp['tag']} returned {got!r} instead of raising ValueError"
+
+
+# ---------------------------------------------------------------- game helpers
+def mk_model(name, params, **kw):
+    M = model_cls(name)
+    p = {k: num(v) for k, v in (params or {}).items()}
+    p.update(kw)
+    return M(**p)
+
+
+def mk_game(name, game):
+    R = rating_cls(name)
+    return [[R(num(p[0]), num(p[1]), name=f"player{i}_{j}") for j, p in enumerate(team)] for i, team in enumerate(game)]
+
+
+def values(res):
+    return [[(p.mu, p.sigma) for p in team] for team in res]
+
+
+def rand_game(rnd, sizes, beta=25.0 / 6):
+    return [[[enc(rnd.uniform(-5 * beta, 10 * beta)), enc(rnd.uniform(0.05 * beta, 4 * beta))] for _ in range(n)] for n in sizes]
+
+
+def _ranks(rp):
+    r = rp.get("ranks")
+    return None if r is None else [num(x) for x in r]
+
+
+# ---------------------------------------------------------------- C15
+@checker("c15_tau")
+def c15_tau(rp):
+    name = rp["model"]
+    t = num(rp["t"])
+    if rp.get("clause") == "canary":
+        # wrong claim: per-call tau is ignored
+        a = mk_model(name, rp["params"]).rate(mk_game(name, rp["game"]), ranks=_ranks(rp), tau=t)
+        b = mk_model(name, rp["params"]).rate(mk_game(name, rp["game"]), ranks=_ranks(rp))
+    else:
+        a = mk_model(name, rp["params"]).rate(mk_game(name, rp["game"]), ranks=_ranks(rp), tau=t)
+        pb = dict(rp["params"])
+        pb["tau"] = rp["t"]
+        b = mk_model(name, pb).rate(mk_game(name, rp["game"]), ranks=_ranks(rp))
+    return values(a) != values(b), f"{name}: rate(tau={t!r}) on a model with tau={num(rp['params']['tau'])!r} -> {values(a)[0][0]}, model(tau={t!r}).rate() -> {values(b)[0][0]}"
+
+
+@searcher("c15_tau")
+def c15_tau_search(rp, seed):
+    rnd = random.Random(seed)
+    for k in range(400):
+        t = [0, 0.0, 1e-9, 25 / 300, 5.0, 1][k % 6]
+        r2 = dict(rp, t=enc(t), game=rand_game(rnd, [len(x) for x in rp["game"]]))
+        r2["params"] = dict(rp["params"], mu=enc(25.0), sigma=enc(25 / 3), beta=enc(25 / 6), kappa=enc(1e-4), tau=enc(rnd.choice([25 / 300, 0.5, 2.0])))
+        try:
+            bad, msg = c15_tau(r2)
+        except Exception:  # noqa: BLE001
+            continue
+        if bad:
+            return r2, msg
+    return None
+
+
+def _lim(x):
+    return None if x is None else bool(x)
+
+
+@checker("c15_limit")
+def c15_limit(rp):
+    name = rp["model"]
+    a = mk_model(name, rp["params"], limit_sigma=_lim(rp["a"])).rate(mk_game(name, rp["game"]), ranks=_ranks(rp), limit_sigma=_lim(rp["b"]))
+    bm = rp["b"] if rp["b"] is not None else rp["a"]
+    if rp.get("clause") == "canary":
+        bm = not bm
+    b = mk_model(name, rp["params"], limit_sigma=_lim(bm)).rate(mk_game(name, rp["game"]), ranks=_ranks(rp))
+    return values(a) != values(b), f"{name}: model(limit_sigma={rp['a']}).rate(limit_sigma={rp['b']}) != model(limit_sigma={bm}).rate()"
+
+
+@searcher("c15_limit")
+def c15_limit_search(rp, seed):
+    rnd = random.Random(seed)
+    for _ in range(300):
+        r2 = dict(rp, game=rand_game(rnd, [len(x) for x in rp["game"]]))
+        r2["params"] = dict(rp["params"], mu=enc(25.0), sigma=enc(25 / 3), beta=enc(25 / 6), kappa=enc(1e-4), tau=enc(rnd.choice([0.0, 25 / 300, 3.0])))
+        try:
+            bad, msg = c15_limit(r2)
+        except Exception:  # noqa: BLE001
+            continue
+        if bad:
+            return r2, msg
+    return None
+
+
+@checker("c15_seq")
+def c15_seq(rp):
+    """two calls on one model: the second omits the options and must equal a
+    fresh model's result."""
+    name = rp["model"]
+    m = mk_model(name, rp["params"], limit_sigma=_lim(rp["a"]))
+    kw = {}
+    if rp.get("b") is not None:
+        kw["limit_sigma"] = _lim(rp["b"])
+    if rp.get("t") is not None:
+        kw["tau"] = num(rp["t"])
+    m.rate(mk_game(name, rp["game1"]), **kw)
+    a = m.rate(mk_game(name, rp["game"]))
+    b = mk_model(name, rp["params"], limit_sigma=_lim(rp["a"])).rate(mk_game(name, rp["game"]))
+    return values(a) != values(b), f"{name}: after rate(..., {kw}) the same model's rate() differs from a fresh model(limit_sigma={rp['a']})'s"
+
+
+@searcher("c15_seq")
+def c15_seq_search(rp, seed):
+    rnd = random.Random(seed)
+    for _ in range(300):
+        r2 = dict(rp, game=rand_game(rnd, [len(x) for x in rp["game"]]), game1=rand_game(rnd, [len(x) for x in rp["game1"]]))
+        r2["params"] = dict(rp["params"], mu=enc(25.0), sigma=enc(25 / 3), beta=enc(25 / 6), kappa=enc(1e-4), tau=enc(rnd.choice([25 / 300, 3.0])))
+        try:
+            bad, msg = c15_seq(r2)
+        except Exception:  # noqa: BLE001
+            continue
+        if bad:
+            return r2, msg
+    return None
+
+
+# ---------------------------------------------------------------- C14 / C20
+def _call_op(m, op, teams, ranks=None, kw=None):
+    if op == "rate":
+        return values(m.rate(teams, ranks=ranks, **(kw or {})))
+    return getattr(m, op)(teams)
+
+
+def _kw(rp):
+    kw = {}
+    if rp.get("t") is not None:
+        kw["tau"] = num(rp["t"])
+    if rp.get("b") is not None:
+        kw["limit_sigma"] = bool(rp["b"])
+    return kw
+
+
+def _state(m):
+    return {k: (v if not isinstance(v, (list, dict, set)) else copy.deepcopy(v)) for k, v in m.__dict__.items()}
+
+
+@checker("c14_frame")
+def c14_frame(rp):
+    name = rp["model"]
+    m = mk_model(name, rp["params"], limit_sigma=bool(rp.get("a", False)))
+    teams = mk_game(name, rp["game"])
+    before = _state(m)
+    ids = [[(p.id, p.name, p.mu, p.sigma, sorted(p.__dict__)) for p in t] for t in teams]
+    try:
+        _call_op(m, rp["op"], teams, _ranks(rp), _kw(rp))
+    except Exception as e:  # noqa: BLE001
+        pass
+    after = _state(m)
+    if before != after:
+        diff = {k: (before.get(k), after.get(k)) for k in set(before) | set(after) if before.get(k) != after.get(k)}
+        return True, f"{name}.{rp['op']}({_kw(rp)}) changed model attributes: {diff}"
+    ids2 = [[(p.id, p.name, p.mu, p.sigma, sorted(p.__dict__)) for p in t] for t in teams]
+    for t1, t2 in zip(ids, ids2):
+        for a, b in zip(t1, t2):
+            if a[0] != b[0] or a[1] != b[1] or a[4] != b[4]:
+                return True, f"{name}.{rp['op']} changed a rating's id/name/attribute set: {a} -> {b}"
+            if rp["op"] != "rate" and (a[2] != b[2] or a[3] != b[3]):
+                return True, f"{name}.{rp['op']} changed a rating's mu/sigma: {a} -> {b}"
+    return False, "model and rating identity attributes unchanged"
+
+
+@searcher("c14_frame")
+def c14_frame_search(rp, seed):
+    rnd = random.Random(seed)
+    for _ in range(100):
+        r2 = dict(rp, game=rand_game(rnd, [len(x) for x in rp["game"]]))
+        r2["params"] = dict(mu=enc(25.0), sigma=enc(25 / 3), beta=enc(25 / 6), kappa=enc(1e-4), tau=enc(25 / 300))
+        try:
+            bad, msg = c14_frame(r2)
+        except Exception:  # noqa: BLE001
+            continue
+        if bad:
+            return r2, msg
+    return None
+
+
+@checker("c14_history")
+def c14_history(rp):
+    """first call (any op, any options) on game1, then op on game: equals a fresh model's result"""
+    name = rp["model"]
+    m = mk_model(name, rp["params"], limit_sigma=bool(rp.get("a", False)))
+    try:
+        _call_op(m, rp["op1"], mk_game(name, rp["game1"]), None, _kw(rp))
+    except Exception:  # noqa: BLE001
+        pass
+    a = _call_op(m, rp["op"], mk_game(name, rp["game"]), _ranks(rp))
+    b = _call_op(mk_model(name, rp["params"], limit_sigma=bool(rp.get("a", False))), rp["op"], mk_game(name, rp["game"]), _ranks(rp))
+    if rp.get("clause") == "canary":
+        b = _call_op(mk_model(name, dict(rp["params"], beta=enc(num(rp["params"]["beta"]) * 2)), limit_sigma=bool(rp.get("a", False))), rp["op"], mk_game(name, rp["game"]), _ranks(rp))
+    return a != b, f"{name}: {rp['op']} after {rp['op1']}({_kw(rp)}) = {str(a)[:80]} ; fresh model: {str(b)[:80]}"
+
+
+@searcher("c14_history")
+def c14_history_search(rp, seed):
+    rnd = random.Random(seed)
+    for _ in range(200):
+        r2 = dict(rp, game=rand_game(rnd, [len(x) for x in rp["game"]]), game1=rand_game(rnd, [len(x) for x in rp["game1"]]))
+        r2["params"] = dict(mu=enc(25.0), sigma=enc(25 / 3), beta=enc(25 / 6), kappa=enc(1e-4), tau=enc(25 / 300))
+        if rp.get("t") is not None:
+            r2["t"] = enc(rnd.choice([0.0, 1.0, 5.0]))
+        try:
+            bad, msg = c14_history(r2)
+        except Exception:  # noqa: BLE001
+            continue
+        if bad:
+            return r2, msg
+    return None
+
+
+@checker("c14_rebuild")
+def c14_rebuild(rp):
+    """original objects (with names/ids) vs objects rebuilt from (mu, sigma)"""
+    name = rp["model"]
+    m1 = mk_model(name, rp["params"], limit_sigma=bool(rp.get("a", False)))
+    m2 = mk_model(name, rp["params"], limit_sigma=bool(rp.get("a", False)))
+    g1 = mk_game(name, rp["game"])
+    g2 = [[m2.rating(p.mu, p.sigma) for p in t] for t in g1]
+    if rp.get("via") == "create_rating":
+        g2 = [[m2.create_rating([p.mu, p.sigma]) for p in t] for t in g1]
+    if rp.get("clause") == "canary":
+        g2[0][0].mu = g2[0][0].mu + 1.0
+    a = _call_op(m1, rp["op"], g1, _ranks(rp), _kw(rp))
+    b = _call_op(m2, rp["op"], g2, _ranks(rp), _kw(rp))
+    return a != b, f"{name}.{rp['op']}: originals {str(a)[:80]} ; rebuilt {str(b)[:80]}"
+
+
+@searcher("c14_rebuild")
+def c14_rebuild_search(rp, seed):
+    rnd = random.Random(seed)
+    for _ in range(200):
+        r2 = dict(rp, game=rand_game(rnd, [len(x) for x in rp["game"]]))
+        r2["params"] = dict(mu=enc(25.0), sigma=enc(25 / 3), beta=enc(25 / 6), kappa=enc(1e-4), tau=enc(25 / 300))
+        try:
+            bad, msg = c14_rebuild(r2)
+        except Exception:  # noqa: BLE001
+            continue
+        if bad:
+            return r2, msg
+    return None
+
+
+@checker("scan")
+def scan_checker(rp):
+    """a syntactic finding is replayed by re-scanning the real file"""
+    import ast
+    from pyvc import scan
+    repo = os.environ.get("PYVC_REPO", "/repo")
+    with open(os.path.join(repo, rp["file"])) as fh:
+        tree = ast.parse(fh.read())
+    if rp.get("scan") == "hash_order":
+        found = scan.hash_order_uses(tree)
+    else:
+        found = scan.shared_state_writes(tree)
+    return bool(found), f"{rp['file']}: {found[:3]}"
